@@ -45,7 +45,7 @@ m("ius-ge", "src/serving.rs", "*m > parse_http_date(since.to_str()", "*m >= pars
 m("ims-despite-inm", "src/serving.rs", "        Some(true) => false,\n", "        Some(true) => matches!((last_modified, req_hdrs.get(header::IF_MODIFIED_SINCE)), (Some(ref m), Some(s)) if s.to_str().ok().and_then(|s| parse_http_date(s).ok()).map_or(false, |d| *m <= d)),\n", ["C04"])
 m("304-before-412", "src/serving.rs", "    if precondition_failed {\n        res = res.status(StatusCode::PRECONDITION_FAILED);\n        return ServeInner::Simple(res.body(Body::from(\"Precondition failed\")).unwrap());\n    }\n\n    if not_modified {\n        res = res.status(StatusCode::NOT_MODIFIED);\n        return ServeInner::Simple(res.body(Body::empty()).unwrap());\n    }", "    if not_modified {\n        res = res.status(StatusCode::NOT_MODIFIED);\n        return ServeInner::Simple(res.body(Body::empty()).unwrap());\n    }\n\n    if precondition_failed {\n        res = res.status(StatusCode::PRECONDITION_FAILED);\n        return ServeInner::Simple(res.body(Body::from(\"Precondition failed\")).unwrap());\n    }", ["C04"])
 m("revert-D4-ius-with-if-match", "src/serving.rs", "    } else if req_hdrs.contains_key(header::IF_MATCH) {\n        // RFC 7232 section 3.4: a recipient MUST ignore If-Unmodified-Since if the request\n        // contains an If-Match header field.\n        false\n", "", ["C04"])
-m("revert-D5-untruncated-compare", "src/serving.rs", ".map(|m| truncate_to_secs(std::cmp::min(m, now)));", ".map(|m| m);", ["C04", "C14"])
+m("revert-D5-untruncated-compare", "src/serving.rs", "        .map(|m| truncate_to_secs(std::cmp::min(m, now)));", "        .map(|m| m);", ["C04", "C14"])
 m("compare-unclamped", "src/serving.rs", ".map(|m| truncate_to_secs(std::cmp::min(m, now)));", ".map(|m| truncate_to_secs(m));", ["C14"])
 m("last-modified-not-clamped", "src/serving.rs", "        let clamped_m = std::cmp::min(m, d);", "        let clamped_m = ent.last_modified().unwrap_or(m);", ["C14"])
 m("etag-dropped-on-304", "src/serving.rs", "    if not_modified {\n        res = res.status(StatusCode::NOT_MODIFIED);", "    if not_modified {\n        res = Response::builder().header(header::ACCEPT_RANGES, HeaderValue::from_static(\"bytes\"));\n        res = res.status(StatusCode::NOT_MODIFIED);", ["C14"])
@@ -94,7 +94,10 @@ m("dead-not-entered-after-failure", "src/gzip.rs", "        if r.is_err() {\n   
 m("vary-missing-without-gzip", "src/lib.rs", "        resp.headers_mut()\n            .append(header::VARY, HeaderValue::from_static(\"accept-encoding\"));\n\n        if self.should_gzip && self.gzip_level > 0 {\n            resp.headers_mut()", "        if self.should_gzip && self.gzip_level > 0 {\n            resp.headers_mut()\n                .append(header::VARY, HeaderValue::from_static(\"accept-encoding\"));\n            resp.headers_mut()", ["C17"])
 # ---- file.rs / platform.rs
 m("file-chunk-not-clamped-to-range", "src/file.rs", "                let chunk_size = std::cmp::min(CHUNK_SIZE, left.end - left.start) as usize;", "                let chunk_size = CHUNK_SIZE as usize;", ["C18"])
-m("file-etag-without-len", "src/file.rs", "            self.inner.inode,\n            self.inner.len,\n            dur.as_secs(),", "            self.inner.inode,\n            0,\n            dur.as_secs(),", ["C18"])
+m("file-etag-without-len", "src/file.rs", "            self.inner.inode,\n            self.inner.len,\n            sign,", "            self.inner.inode,\n            0,\n            sign,", ["C18"])
+m("file-etag-without-sign", "src/file.rs", "            Err(e) => (\"-\", e.duration()),", "            Err(e) => (\"\", e.duration()),", ["C18"])
+m("revert-D10-etag-expect", "src/file.rs", "            Err(e) => (\"-\", e.duration()),", "            Err(_) => panic!(\"modification time must be after epoch\"),", ["C18"])
+m("revert-D11-pre-epoch-filter", "src/serving.rs", "        .filter(|m| *m >= SystemTime::UNIX_EPOCH)\n", "", ["C13"])
 m("file-etag-without-nanos", "src/file.rs", "            dur.subsec_nanos()\n        ))", "            0\n        ))", ["C18"])
 m("file-etag-without-inode", "src/file.rs", "            self.inner.inode,\n            self.inner.len,", "            0,\n            self.inner.len,", ["C18"])
 m("file-is-file-check-dropped", "src/file.rs", "        if !metadata.is_file() {", "        if !metadata.is_file() && metadata.is_dir() {", ["C18"])
